@@ -2,6 +2,7 @@ package main
 
 import (
 	"fmt"
+	"regexp"
 	"strings"
 )
 
@@ -21,8 +22,9 @@ type node struct {
 	parent *node
 
 	// inline piece (tag == ""): src is emitted verbatim; dec is its decoded text ("" for comments)
-	src string
-	dec string
+	src  string
+	dec  string
+	srcX string // alternative spelling for the well-formed XHTML serialization ("" = same as src)
 
 	// content leaf annotation
 	tok  string // expected decoded text; "" when the element is not a leaf
@@ -71,7 +73,7 @@ type builder struct {
 	noA   bool // the leaf text is already inside an <a>: the markup variant must not nest another one
 }
 
-var inlineVariants = []string{"plain", "named", "decimal", "hex", "markup", "script", "mixed"}
+var inlineVariants = []string{"plain", "named", "decimal", "hex", "markup", "script", "misnest", "mixed"}
 
 // inline returns the inline pieces and the expected decoded text of a fresh leaf.
 func (b *builder) inline() ([]*node, string) {
@@ -79,16 +81,20 @@ func (b *builder) inline() ([]*node, string) {
 	id := fmt.Sprintf("%02d", b.next)
 	z := func() string { b.nextZ++; return fmt.Sprintf("Zs%02d", b.nextZ) }
 	iv := b.iv
-	if iv == 6 { // mixed: rotate over the other variants by leaf number
-		iv = b.next % 6
+	if iv == 7 { // mixed: rotate over the other variants by leaf number
+		iv = b.next % 7
 	}
 	switch iv {
 	case 1:
-		return []*node{ent("Tk"+id+"&amp;&lt;&gt;&quot;&eacute;&euro;x", "Tk"+id+"&<>\"é€x")}, "Tk" + id + "&<>\"é€x"
+		n := ent("Tk"+id+"&amp;&lt;&gt;&quot;&eacute;&euro;x", "Tk"+id+"&<>\"é€x")
+		n.srcX = "Tk" + id + "&amp;&lt;&gt;&quot;&#233;&#8364;x" // XML predefines only amp, lt, gt, quot, apos
+		return []*node{n}, "Tk" + id + "&<>\"é€x"
 	case 2:
 		return []*node{ent("Tk"+id+"&#38;&#60;&#62;&#233;&#8364;x", "Tk"+id+"&<>é€x")}, "Tk" + id + "&<>é€x"
 	case 3:
-		return []*node{ent("Tk"+id+"&#x26;&#x3C;&#x3e;&#xE9;&#x20ac;&#X41;", "Tk"+id+"&<>é€A")}, "Tk" + id + "&<>é€A"
+		n := ent("Tk"+id+"&#x26;&#x3C;&#x3e;&#xE9;&#x20ac;&#X41;", "Tk"+id+"&<>é€A")
+		n.srcX = "Tk" + id + "&#x26;&#x3C;&#x3e;&#xE9;&#x20ac;&#x41;" // XML wants a lower-case x
+		return []*node{n}, "Tk" + id + "&<>é€A"
 	case 4:
 		return []*node{
 			el("b", raw("T")),
@@ -104,6 +110,12 @@ func (b *builder) inline() ([]*node, string) {
 			comment(z()),
 			raw(id[1:]),
 		}, "Tk" + id
+	}
+	if iv == 6 {
+		// misnested inline tags (malformed but ubiquitous): the adoption agency algorithm keeps the text order
+		n := ent("<b>T<i>k</b>"+id+"</i>", "Tk"+id)
+		n.srcX = "<b>T<i>k</i></b><i>" + id + "</i>"
+		return []*node{n}, "Tk" + id
 	}
 	return []*node{raw("Tk" + id)}, "Tk" + id
 }
@@ -164,7 +176,7 @@ func prune(n *node, skip func(*node) bool) *node {
 	if n.tag != "" && skip(n) {
 		return nil
 	}
-	c := &node{tag: n.tag, attrs: n.attrs, src: n.src, tok: n.tok, kind: n.kind}
+	c := &node{tag: n.tag, attrs: n.attrs, src: n.src, srcX: n.srcX, dec: n.dec, tok: n.tok, kind: n.kind}
 	for _, k := range n.kids {
 		c.add(prune(k, skip))
 	}
@@ -329,6 +341,7 @@ type style struct {
 	upper   bool // upper-case tag and attribute names
 	compact bool // no inter-element whitespace
 	xhtml   bool // well-formed XML serialization (never combined with omitEnd/unquoted/upper)
+	cutoff  bool // the document ends after the last text: every trailing end tag is missing (same DOM)
 }
 
 var styles = []style{
@@ -339,6 +352,7 @@ var styles = []style{
 	{name: "upper", upper: true},
 	{name: "compact", compact: true},
 	{name: "all", omitEnd: true, quote: 2, upper: true, compact: true},
+	{name: "cutoff", cutoff: true},
 }
 
 type frame struct {
@@ -467,7 +481,11 @@ func (w *writer) nl(depth int) {
 
 func (w *writer) node(n *node, depth int) {
 	if n.tag == "" {
-		w.b.WriteString(n.src)
+		if w.st.xhtml && n.srcX != "" {
+			w.b.WriteString(n.srcX)
+		} else {
+			w.b.WriteString(n.src)
+		}
 		return
 	}
 	w.b.WriteByte('<')
@@ -527,5 +545,10 @@ func render(body *node, st style, fr frame) string {
 		inner()
 		w.b.WriteString("</body>\n</html>\n")
 	}
+	if st.cutoff {
+		return trailingEndTags.ReplaceAllString(w.b.String(), "")
+	}
 	return w.b.String()
 }
+
+var trailingEndTags = regexp.MustCompile(`(\s*</[a-zA-Z0-9]+>)*\s*$`)
